@@ -24,44 +24,158 @@ func init() { register("c17seq", c17SeqSuite{}) }
 
 type c17SeqSuite struct{}
 
+// c17Graph emits edge lines of one structured graph and returns (#nodes, acyclic?).
+func c17Graph(rng *Rng, w *bufio.Writer, shape int) (int, bool) {
+	next := 1
+	edge := func(a, b int) {
+		fmt.Fprintf(w, "edge %d %d %d\n", next, a, b)
+		next += 1 + rng.Intn(3)
+	}
+	switch shape {
+	case 0: // star: root 0 with k leaves (the shape of the seeded regression: siblings compete for the budget)
+		k := 2 + rng.Intn(5)
+		for i := 1; i <= k; i++ {
+			edge(0, i)
+		}
+		return k + 1, true
+	case 1: // diamond(s): 0 -> {1,2} -> 3 -> {4,5} -> 6
+		edge(0, 1)
+		edge(0, 2)
+		edge(1, 3)
+		edge(2, 3)
+		if rng.Bool() {
+			edge(3, 4)
+			edge(3, 5)
+			edge(4, 6)
+			edge(5, 6)
+			return 7, true
+		}
+		return 4, true
+	case 2: // cycle with a tail and a chord
+		n := 3 + rng.Intn(4)
+		for i := 0; i < n; i++ {
+			edge(i, (i+1)%n)
+		}
+		edge(0, n)
+		if rng.Bool() {
+			edge(n, 1)
+		}
+		return n + 1, false
+	case 3: // self loops and parallel edges on a short chain
+		n := 2 + rng.Intn(4)
+		for i := 0; i+1 < n; i++ {
+			edge(i, i+1)
+			if rng.Chance(1, 3) {
+				edge(i, i+1)
+			}
+			if rng.Chance(1, 2) {
+				edge(i, i)
+			}
+		}
+		edge(n-1, n-1)
+		return n, false
+	case 4: // random DAG
+		n := 3 + rng.Intn(5)
+		for e := 0; e < 2+rng.Intn(10); e++ {
+			a := rng.Intn(n - 1)
+			edge(a, a+1+rng.Intn(n-1-a))
+		}
+		return n, true
+	default: // random digraph
+		n := 1 + rng.Intn(7)
+		for e := 0; e < rng.Intn(13); e++ {
+			edge(rng.Intn(n), rng.Intn(n))
+		}
+		return n, false
+	}
+}
+
+// c17RejectSet renders a node-reject filter token of the given class.
+func c17RejectSet(rng *Rng, nodes int, class int) string {
+	switch class {
+	case 0:
+		return "-" // nil filter
+	case 1:
+		return "r" // non-nil, rejects nothing
+	case 2: // rejects low ids: nodes reached early
+		ids := []string{}
+		for i := 0; i < nodes && i < 1+rng.Intn(3); i++ {
+			ids = append(ids, strconv.Itoa(1+i))
+		}
+		return "r" + strings.Join(ids, ",")
+	case 3: // rejects high ids: nodes reached late
+		ids := []string{}
+		for i := 0; i < 1+rng.Intn(3) && nodes-1-i >= 0; i++ {
+			ids = append(ids, strconv.Itoa(nodes-1-i))
+		}
+		return "r" + strings.Join(ids, ",")
+	case 4: // rejects everything
+		ids := []string{}
+		for i := 0; i < nodes; i++ {
+			ids = append(ids, strconv.Itoa(i))
+		}
+		return "r" + strings.Join(ids, ",")
+	default: // random subset
+		ids := []string{}
+		for i := 0; i < nodes; i++ {
+			if rng.Bool() {
+				ids = append(ids, strconv.Itoa(i))
+			}
+		}
+		return "r" + strings.Join(ids, ",")
+	}
+}
+
 func (c17SeqSuite) Gen(rng *Rng, tier string, w *bufio.Writer, stats *Stats) {
-	n := 60
+	n := 90
 	if tier == "thorough" {
-		n = 1500
+		n = 2500
 	}
 	caseNo := 0
+	skips := []int{0, 0, 1, 2}
+	limits := []int{0, 0, 1, 2, 50, -1}
 	for i := 0; i < n; i++ {
 		caseNo++
 		fmt.Fprintf(w, "# case %d\n", caseNo)
 		fmt.Fprintln(w, "graph")
-		nodes := 1 + rng.Intn(7)
-		edges := rng.Intn(13)
-		ids := map[int]bool{}
-		for e := 0; e < edges; e++ {
-			id := 1 + rng.Intn(60)
-			for ids[id] {
-				id = 1 + rng.Intn(60)
+		shape := i % 6
+		nodes, acyclic := c17Graph(rng, w, shape)
+		stats.Inc(fmt.Sprintf("gen.graph_shape_%d", shape))
+		for q := 0; q < 8; q++ {
+			helper := Pick(rng, []string{"paths", "terminals", "nodes", "nodes", "nodes", "intermediary", "intermediary"})
+			dir := Pick(rng, []string{"out", "out", "out", "in"})
+			skip, limit := Pick(rng, skips), Pick(rng, limits)
+			nf, df, pf := "-", "-", "-"
+			switch helper {
+			case "nodes":
+				nf = c17RejectSet(rng, nodes, rng.Intn(6))
+			case "intermediary":
+				nf = c17RejectSet(rng, nodes, 1+rng.Intn(5))
+			default:
+				if rng.Chance(1, 2) {
+					pf = c17RejectSet(rng, nodes, rng.Intn(6))
+				}
 			}
-			ids[id] = true
-			fmt.Fprintf(w, "edge %d %d %d\n", id, rng.Intn(nodes), rng.Intn(nodes))
-		}
-		for q := 0; q < 6; q++ {
-			helper := Pick(rng, []string{"paths", "paths", "terminals", "nodes", "intermediary"})
-			dir := Pick(rng, []string{"out", "out", "in"})
-			skip, limit := 0, 0
-			if rng.Chance(1, 2) {
-				skip = rng.Intn(4)
+			switch x := rng.Intn(6); {
+			case x == 0:
+				df = c17RejectSet(rng, nodes, 2+rng.Intn(2))
+			case x == 1:
+				df = fmt.Sprintf("d%d", 1+rng.Intn(3))
 			}
-			if rng.Chance(1, 2) {
-				limit = rng.Intn(5) - 1
+			if helper == "intermediary" && !acyclic && !strings.HasPrefix(df, "d") {
+				// TraverseIntermediaryPaths has neither a cycle test nor a visited set: on a cyclic graph only a
+				// bounding DescentFilter (the caller's duty) makes it terminate
+				df = fmt.Sprintf("d%d", 1+rng.Intn(4))
 			}
-			if helper == "intermediary" && limit < 1 {
-				// no cycle filter and no visited set in TraverseIntermediaryPaths: on a cyclic graph it only
-				// stops at a limit (a DescentFilter is the caller's duty) — keep the tie terminating
-				limit = 1 + rng.Intn(4)
+			root := 0
+			if rng.Chance(1, 4) {
+				root = rng.Intn(nodes)
 			}
-			fmt.Fprintf(w, "%s %s %d %d %d\n", helper, dir, rng.Intn(nodes), skip, limit)
+			fmt.Fprintf(w, "%s %s %d %d %d %s %s %s\n", helper, dir, root, skip, limit, nf, df, pf)
 			stats.Inc("gen.helper." + helper)
+			if nf != "-" && nf != "r" && (skip > 0 || limit > 0) {
+				stats.Inc("gen.rejecting_filter_with_window")
+			}
 		}
 	}
 	for _, c := range [][3]int{{0, 0, 5}, {2, 3, 10}, {0, 3, 2}, {5, 0, 3}, {-1, -2, 4}, {3, -1, 6}, {1, 1, 1}} {
@@ -76,6 +190,45 @@ func (c17SeqSuite) Gen(rng *Rng, tier string, w *bufio.Writer, stats *Stats) {
 		caseNo++
 		fmt.Fprintf(w, "# case %d\npfloors %d %d\n", caseNo, mx, 1+rng.Intn(4))
 	}
+}
+
+// filter tokens: "-" nil, "r<csv>" reject these node ids, "d<k>" accept depth <= k
+func c17ParseNodeReject(t string) (map[graph.ID]bool, bool, bool) { // (set, isNil, ok)
+	if t == "-" {
+		return nil, true, true
+	}
+	if !strings.HasPrefix(t, "r") {
+		return nil, false, false
+	}
+	set := map[graph.ID]bool{}
+	if body := t[1:]; body != "" {
+		for _, p := range strings.Split(body, ",") {
+			v, err := strconv.Atoi(p)
+			if err != nil || v < 0 {
+				return nil, false, false
+			}
+			set[graph.ID(v)] = true
+		}
+	}
+	return set, false, true
+}
+
+func c17ParseSegFilter(t string) (func(*graph.PathSegment) bool, bool) {
+	if strings.HasPrefix(t, "d") {
+		k, err := strconv.Atoi(t[1:])
+		if err != nil || k < 0 {
+			return nil, false
+		}
+		return func(s *graph.PathSegment) bool { return s.Depth() <= k }, true
+	}
+	set, isNil, ok := c17ParseNodeReject(t)
+	if !ok {
+		return nil, false
+	}
+	if isNil {
+		return nil, true
+	}
+	return func(s *graph.PathSegment) bool { return !set[s.Node.ID] }, true
 }
 
 type c17MemDB struct {
@@ -295,11 +448,15 @@ func (r *c17SeqRunner) Step(t []string, raw string) string {
 		r.db.rels = append(r.db.rels, graph.NewRelationship(graph.ID(e), graph.ID(a), graph.ID(b), graph.NewProperties(), kind))
 		sort.SliceStable(r.db.rels, func(i, j int) bool { return r.db.rels[i].ID < r.db.rels[j].ID })
 		return "ok"
-	case len(t) == 5 && (t[0] == "paths" || t[0] == "terminals" || t[0] == "nodes" || t[0] == "intermediary"):
+	case len(t) == 8 && (t[0] == "paths" || t[0] == "terminals" || t[0] == "nodes" || t[0] == "intermediary"):
 		root, e1 := strconv.Atoi(t[2])
 		skip, e2 := strconv.Atoi(t[3])
 		limit, e3 := strconv.Atoi(t[4])
-		if r.db == nil || e1 != nil || e2 != nil || e3 != nil || (t[1] != "out" && t[1] != "in") {
+		rejectNodes, nfNil, okN := c17ParseNodeReject(t[5])
+		df, okD := c17ParseSegFilter(t[6])
+		pf, okP := c17ParseSegFilter(t[7])
+		if r.db == nil || e1 != nil || e2 != nil || e3 != nil || (t[1] != "out" && t[1] != "in") || !okN || !okD || !okP ||
+			(t[0] == "intermediary" && nfNil) {
 			return "bad-op"
 		}
 		rootNode := r.db.nodes[graph.ID(root)]
@@ -310,6 +467,24 @@ func (r *c17SeqRunner) Step(t []string, raw string) string {
 		plan := ops.TraversalPlan{Root: rootNode, Direction: graph.DirectionOutbound, Skip: skip, Limit: limit}
 		if t[1] == "in" {
 			plan.Direction = graph.DirectionInbound
+		}
+		if df != nil {
+			plan.DescentFilter = func(_ *ops.TraversalContext, s *graph.PathSegment) bool { return df(s) }
+			r.stats.Inc("branch.seq.descent_filter")
+		}
+		if pf != nil {
+			plan.PathFilter = func(_ *ops.TraversalContext, s *graph.PathSegment) bool { return pf(s) }
+			r.stats.Inc("branch.seq.path_filter")
+		}
+		var nodeFilter ops.NodeFilter
+		if !nfNil {
+			nodeFilter = func(n *graph.Node) bool { return !rejectNodes[n.ID] }
+			if len(rejectNodes) > 0 {
+				r.stats.Inc("branch.seq.node_filter_rejecting")
+				if skip > 0 || limit > 0 {
+					r.stats.Inc("branch.seq.node_filter_rejecting_with_window")
+				}
+			}
 		}
 		r.stats.Inc("branch.seq." + t[0])
 		if skip > 0 || limit > 0 {
@@ -327,7 +502,7 @@ func (r *c17SeqRunner) Step(t []string, raw string) string {
 				ans = "paths=" + strings.Join(parts, " ")
 				return err
 			case "intermediary":
-				ps, err := ops.TraverseIntermediaryPaths(tx, plan, func(*graph.Node) bool { return true })
+				ps, err := ops.TraverseIntermediaryPaths(tx, plan, nodeFilter)
 				parts := make([]string, len(ps))
 				for i, p := range ps {
 					parts[i] = c17FmtPath(p)
@@ -339,7 +514,7 @@ func (r *c17SeqRunner) Step(t []string, raw string) string {
 				ans = c17FmtNodes(ns)
 				return err
 			default:
-				ns, err := ops.AcyclicTraverseNodes(tx, plan, nil)
+				ns, err := ops.AcyclicTraverseNodes(tx, plan, nodeFilter)
 				ans = c17FmtNodes(ns)
 				return err
 			}
